@@ -94,6 +94,38 @@ def inexact_case(case):
     return r
 
 
+def thereback_case(case):
+    """one system integrates from t0 to T and then back to t0 (fixed-step methods, dt dividing the span): the backward leg must be the one a FRESH system
+    started at (T, y(T)) produces - step for step, bit for bit: whatever the integrator remembers from the forward leg must not leak into the backward one"""
+    de, I = lc._imports()
+    r = Res()
+    name = case["method"]
+    dtype = lc.DT[case["dtype"]]
+    f = pend(kind=case.get("prob", "pendulum"))
+    t0, T, dt0 = case["t0"], case["tf"], case["dt0"]
+    a = de.OdeSystem(f, y0=np.array([0.75, -0.25], dtype=dtype), t=(dtype(t0), dtype(T)), dt=dtype(dt0), rtol=dtype(1e-7), atol=dtype(1e-7))
+    a.method = lc.by_name(name)
+    r.n = 1
+    try:
+        a.integrate(callback=driver.Budget(20000))
+        n1 = len(a)
+        a.dt = dtype(dt0)
+        a.integrate(dtype(t0), callback=driver.Budget(20000))
+        b = de.OdeSystem(f, y0=np.array(a.y[n1 - 1]), t=(a.t[n1 - 1], dtype(t0)), dt=dtype(dt0), rtol=dtype(1e-7), atol=dtype(1e-7))
+        b.method = lc.by_name(name)
+        b.integrate(callback=driver.Budget(20000))
+    except de.exception_types.FailedIntegration as e:
+        r.add("raised")
+        return r
+    tb, yb = np.asarray(a.t[n1 - 1:]), np.asarray(a.y[n1 - 1:])
+    if len(tb) != len(b) or not np.array_equal(tb, np.asarray(b.t)) or not np.array_equal(yb, np.asarray(b.y)):
+        err = float(np.max(np.abs(yb - np.asarray(b.y)))) if len(tb) == len(b) else float("inf")
+        r.v("C04/there-and-back/%s" % name, "the backward leg of a there-and-back run equals a fresh backward run from the turning point (fixed-step method)", case,
+            observed=dict(rows=[len(tb), len(b)], max_diff=err), expected="bit-identical")
+    r.out(("thereback", lc.family(name), case["dtype"], T > t0))
+    return r
+
+
 def pend(sign=1.0, kind="pendulum"):
     if kind == "oscillator":
         def f(t, y, **kw):
@@ -176,6 +208,8 @@ def invariance_case(case):
 
 
 def run_case(case):
+    if case["section"] == "thereback":
+        return thereback_case(case)
     return grid_case(case) if case["section"] == "grid" else (inexact_case(case) if case["section"] == "inexact" else invariance_case(case))
 
 
@@ -214,6 +248,11 @@ def run(ctx):
             for dn in lc.DT:
                 below = float(np.nextafter(lc.DT[dn](abs(tf - t0)), lc.DT[dn](0)))
                 cases.append(dict(section="inexact", method=m, dtype=dn, rhs="const", t0=t0, tf=tf, dt0=below))
+    for m in lc.FIXED_EXPLICIT + lc.SPLITTING:
+        for (t0, tf) in ((0.0, 1.0), (1.0, -1.0), (-2.0, -1.0)):
+            for dt0 in (0.125, 0.25, 0.3):
+                for dn in (("float64",) if ctx.quick else lc.DT):
+                    cases.append(dict(section="thereback", method=m, dtype=dn, t0=t0, tf=tf, dt0=dt0))
     allm = lc.FIXED_EXPLICIT + lc.SPLITTING + lc.ADAPTIVE_EXPLICIT + lc.IMPLICIT_FIXED + lc.IMPLICIT_ADAPTIVE
     ispans = [(0.0, 2.0), (-2.0, -0.5), (1.0, -1.0), (-3.0, 1.0), (3.0, 0.5)] if ctx.quick else [(float(a), float(b)) for a, b in spans if abs(a - b) <= 2]
     for m in allm:
